@@ -162,6 +162,14 @@ class PE:
             v = env.get(l)
             if v is not None and v[0] == "ref":
                 self._write(env, {"l": v[1], "p": list(v[2]) + proj[1:]}, val)
+            elif v is not None and v[0] == "rv":
+                # a seeded pointee (e.g. *self): update the private copy
+                tmp = {-1: v[1]}
+                self._write(tmp, {"l": -1, "p": proj[1:]}, val)
+                if tmp.get(-1) is None:
+                    env.pop(l, None)
+                else:
+                    env[l] = ("rv", tmp[-1])
             return
         # field write into a tracked aggregate: update that field when the path is known
         cur = env.get(l)
